@@ -10,6 +10,7 @@ import (
 	"sort"
 	"strings"
 	"time"
+	"unicode"
 
 	"github.com/aml-org/amf-custom-validator/pkg"
 	"github.com/aml-org/amf-custom-validator/pkg/config"
@@ -362,9 +363,14 @@ func yamlQuote(s string) string {
 		case '\r':
 			b.WriteString(`\r`)
 		default:
-			if r < 0x20 {
+			switch {
+			case r < 0x20 || (r >= 0x7f && r <= 0x9f):
 				fmt.Fprintf(&b, `\x%02x`, r)
-			} else {
+			case r <= 0xffff && !unicode.IsPrint(r):
+				fmt.Fprintf(&b, `\u%04x`, r)
+			case r > 0xffff && !unicode.IsPrint(r):
+				fmt.Fprintf(&b, `\U%08x`, r)
+			default:
 				b.WriteRune(r)
 			}
 		}
